@@ -101,7 +101,7 @@ PROPS['C17'] = {
 
 _TOKEN_CONTRACT_TRUST = [
     'unit token: the container layer (crypto/mod.rs, format/mod.rs) enters as contracts only; each is proved in unit chain from the same contract text (//@include-contracts)',
-    'SymbolTable::{from, extend, is_disjoint}, PublicKeys::{extend, insert, insert_fallible}, BlockBuilder::build, proto_block_to_token_block, Block::print_source: assumed contracts on the real signatures (HashSet / iterator / fmt code)',
+    'SymbolTable::{from, insert, is_disjoint}, PublicKeys::is_disjoint, BlockBuilder::build, proto_block_to_token_block, Block::print_source: assumed contracts on the real signatures (HashSet / iterator / fmt code)',
     'Vec::len() < usize::MAX for the block vectors (requires clauses named len): a Vec of non-zero-sized elements cannot reach usize::MAX elements',
 ]
 PROPS['C01']['units'].append({'template': 'token.rs', 'rlimit': 30, 'items': [
@@ -154,21 +154,21 @@ PROPS['C09'] = {
               'external_public_keys), seal, append*, append_third_party*, third_party_request, ThirdPartyRequest::{from_container, deserialize, create_block}, '
               'SerializedBiscuit::{deserialize, from_slice, verify_inner, extract_blocks} and the key decoders.',
     'not_covered': ['inside prost, nom, regex, fmt and the Datalog engine (termination, stack depth)', 'snapshots, policies, Datalog source parsing, PEM/DER',
-                    'Biscuit::block_public_keys (PublicKeys::insert assumed)', 'collection-valued operator arms (rule A3), Authorizer::from_snapshot / snapshot, the query prologues'],
+                    'Biscuit::block_public_keys', 'collection-valued operator arms (rule A3), Authorizer::from_snapshot / snapshot, the query prologues'],
     'assumptions': CRYPTO_ASSUMPTIONS + _TOKEN_CONTRACT_TRUST,
     'level_text': 'Deductive proof of panic-freedom for an explicit list of functions (named in the evidence): Verus turns every index, slice, unwrap, arithmetic operation and cast '
                   'in the extracted text into a side condition and discharges it for all inputs. The property as a whole (every entry point of the library) is NOT decided; only the listed functions are.',
 }
 PROPS['C12'] = {
     'units': [{'template': 'token.rs', 'rlimit': 30, 'items': [
-        r'^format::SerializedBiscuit::extract_blocks$', r'^datalog::symbol::SymbolTable::(new|extend)$', r'^token::public_keys::PublicKeys::(new|extend)$', r'^token::default_symbol_table$',
+        r'^format::SerializedBiscuit::extract_blocks$', r'^datalog::symbol::SymbolTable::(new|extend)$', r'^token::public_keys::PublicKeys::(new|extend|insert|insert_fallible)$', r'^token::default_symbol_table$',
         r'^token::Biscuit::(new_with_key_pair|from_with_symbols|from_serialized_container|append_with_keypair|append_third_party_with_keypair|seal|block)$',
         r'^token::unverified::UnverifiedBiscuit::(from_with_symbols|unsafe_deprecated_deserialize|append_with_keypair|append_third_party_with_keypair|seal|verify|block)$']}],
     'proved': 'the table invariant inv(token): token.symbols / token.public_keys == the tables a verifier reconstructs from the container (authority block + every first-party block, in order, third-party blocks skipped), '
               'and blocks.len() == container.blocks.len(). SerializedBiscuit::extract_blocks computes exactly that reconstruction (loop invariants over the blocks and over each key list) and returns the decoded payload of every block; '
               'inv is established by new_with_key_pair, from_with_symbols, from_serialized_container, UnverifiedBiscuit::{from_with_symbols, unsafe_deprecated_deserialize} and preserved by append_with_keypair, '
               'append_third_party_with_keypair, seal and verify on both token types; a third-party append leaves the tables unchanged (unverified path only after fix 5c2d5c0). Biscuit::block and UnverifiedBiscuit::block return exactly the decoded block (proto_block_to_token_block of the stored payload and external key), so both token types print a block from the same tables (unverified path only after fix 7c6e353).',
-    'not_covered': ['the internals of SymbolTable / PublicKeys (from, is_disjoint, insert_fallible: HashSet / iterator code) and of BlockBuilder::build are assumed contracts, so "overlaps are refused" is decided only up to them (SymbolTable::extend and PublicKeys::extend themselves are proved: Ok only for disjoint tables, and then exactly the concatenation)',
+    'not_covered': ['the internals of SymbolTable::{from, insert, is_disjoint} and PublicKeys::is_disjoint (HashSet / iterator code) and of BlockBuilder::build are assumed contracts, so "overlaps are refused" is decided only up to them (SymbolTable::extend and PublicKeys::extend themselves are proved: Ok only for disjoint tables, and then exactly the concatenation; PublicKeys::insert / insert_fallible are proved on their bodies through rewrite R10 `iter().position`: insert returns the index of the first equal key and appends exactly when the key is absent, insert_fallible refuses a key already present)',
                     'printing, authorizer equality of the in-memory and the reloaded token'],
     'assumptions': CRYPTO_ASSUMPTIONS + _TOKEN_CONTRACT_TRUST + ['token_block_to_proto_block writes exactly the block\'s own symbols and the encodings of its own public keys (axiom proto_of_tables); prost decode(encode(block)) = block',
                     'BlockBuilder::build returns a block whose own symbol table carries no public keys'],
@@ -193,7 +193,7 @@ _LOADB_PROVED = (' Loading a block into the authorizer (load_and_translate_block
                  'and the execution time (Some iff non-zero) are the ones of the snapshot. AuthorizerBuilder::from_snapshot accepts only a snapshot with no blocks, no generated facts, zero iterations and zero execution time, in the supported version range, and restores its limits.')
 _LOADB_ASSUME = ['unit loadb: FactSet::insert / RuleSet::insert add exactly the given (origin, fact) / (block, trusted set, rule) entry (FactSet::insert: proved in unit factset); conversions between symbol tables are functions of (object, source table) - interning in the target table is not modelled; Rule::validate_variables returns',
                  'unit loadb / build_inner: the statement `blocks = Some(token.blocks().enumerate().map(.. load_and_translate_block ..).collect()?)` is an oracle (rule A5): one decoded block per container block plus the authority, key map only read, '
-                 'nothing stored under the authorizer origin; PublicKeys::insert returns the index of the first equal key and appends when absent; HashMap entry().or_default().push() appends to the list under the key; Biscuit::block_count = 1 + container blocks (token invariant rep(), unit token)']
+                 'nothing stored under the authorizer origin; PublicKeys::insert returns the index of the first equal key and appends when absent (proved in unit token); HashMap entry().or_default().push() appends to the list under the key; Biscuit::block_count = 1 + container blocks (token invariant rep(), unit token)']
 _FACTSET = {'template': 'factset.rs', 'rlimit': 30, 'items': [r'^datalog::FactSet::(insert|merge)$']}
 _FACTSET_PROVED = (' The fact store (unit factset, the real HashMap<Origin, HashSet<Fact>> representation): FactSet::insert adds exactly the pair (origin, fact) - stored under exactly the given origin, every other entry kept, nothing else added; '
                    'FactSet::merge leaves exactly the union of both stores, origin by origin (a fact is never moved to, merged into or dropped in favour of another origin).')
